@@ -113,7 +113,9 @@ def r10_2(ctx):
     for f in (plain, lab):
         res = Resolver(f.node)
         fl = Flow(f.node, resolver=res).run()
-        adds = [n for n in ast.walk(f.node) if isinstance(n, ast.Call) and ast.unparse(n.func) == "add" and n.args
+        # `add(x)` (the bound `chunks.append`) or `<list>.append(x)` directly
+        adds = [n for n in ast.walk(f.node) if isinstance(n, ast.Call) and n.args
+                and (ast.unparse(n.func) == "add" or (isinstance(n.func, ast.Attribute) and n.func.attr == "append"))
                 and ("config_string" in res.text(n.args[0]) or "conf_string" in ast.unparse(n.args[0]))]
         construct = f"{f.short}/emits config_string of exactly the _is_min_config_sym symbols"
         if not adds:
